@@ -1023,6 +1023,8 @@ class AffInterp:
                 return self.dtred("max", args[0])
             if base == "print":
                 return None
+            if base == "abs":
+                return self.builtin("np.abs", args, kwargs, node, func)
             raise AnalysisError("%s:%d unsupported builtin %s" % (func.qualname, ln, base))
         if base in ("min", "amin"):
             return self.dtred("min", args[0])
@@ -1155,7 +1157,10 @@ def run_jacobian(project, cls):
     return ai, f, jm
 
 
-def step_effects(project, cls, islinear, nsteps=3):
+def step_effects(project, cls, islinear, nsteps=None):
+    import os
+    if nsteps is None:
+        nsteps = 5 if os.environ.get("FDCHECK_TIER") == "thorough" else 3
     """attributes of the solver object that a step reads before writing (state carried in
     from before the call) and attributes it writes, for consecutive steps 1..nsteps on one
     object.  calc_jacobian is executed for real (both sides of its cache guard are reached
